@@ -36,6 +36,9 @@ pub struct RunCfg {
     /// publish calls issued from a spawned task
     #[serde(default)]
     pub spawned: bool,
+    /// p > 0: storage operations yield to the runtime at every p-th gate (more task interleavings)
+    #[serde(default)]
+    pub yields: u8,
 }
 #[derive(Serialize, Deserialize, Clone, Debug)]
 pub struct Case {
@@ -107,7 +110,8 @@ fn model_transcript<TC: Tcfg>(case: &Case) -> Vec<String> {
 async fn real_transcript<TC: Tcfg>(case: &Case, rc: &RunCfg) -> R<Vec<String>> {
     let key = key_bytes(case.hist.key);
     let pk = public_key(&key);
-    let db = AsyncInMemoryDatabase::new();
+    let db = crate::vdb::VDb::new();
+    db.ctl.yield_every.store(rc.yields as u64, std::sync::atomic::Ordering::SeqCst);
     let (batches, _) = case.hist.resolve();
     let mut labels = case.hist.labels.clone();
     labels.sort();
@@ -406,7 +410,7 @@ pub fn cachekind_strategy() -> impl Strategy<Value = CacheKind> {
 }
 pub fn runcfg_strategy() -> impl Strategy<Value = RunCfg> {
     (par_strategy(), cachekind_strategy(), prop_oneof![2 => Just(0u32), 2 => any::<u32>(), 1 => Just(u32::MAX)], any::<bool>(), prop_oneof![2 => Just(0u32), 1 => any::<u32>().prop_map(|x| x & 0x1111_1111)])
-        .prop_map(|(par, cache, restarts, read_only, pauses)| RunCfg { par, cache, restarts, read_only, pauses: if matches!(cache, CacheKind::ShortLife(_) | CacheKind::Custom(..)) { pauses } else { 0 }, spawned: restarts % 3 == 1 })
+        .prop_map(|(par, cache, restarts, read_only, pauses)| RunCfg { par, cache, restarts, read_only, pauses: if matches!(cache, CacheKind::ShortLife(_) | CacheKind::Custom(..)) { pauses } else { 0 }, spawned: restarts % 3 == 1, yields: [0u8, 1, 0, 2, 3][(restarts % 5) as usize] })
 }
 
 pub fn strategy(thorough: bool) -> impl Strategy<Value = Case> {
@@ -419,7 +423,7 @@ pub fn strategy(thorough: bool) -> impl Strategy<Value = Case> {
     )
         .prop_map(|(cfg, hist, script, mut runs)| {
             // the first run is always the plain baseline
-            runs[0] = RunCfg { par: ParKind::Disabled, cache: CacheKind::None, restarts: 0, read_only: false, pauses: 0, spawned: false };
+            runs[0] = RunCfg { par: ParKind::Disabled, cache: CacheKind::None, restarts: 0, read_only: false, pauses: 0, spawned: false, yields: 0 };
             Case { cfg, hist, script, runs }
         })
 }
@@ -430,7 +434,7 @@ fn cross_product() -> Vec<RunCfg> {
     for par in [ParKind::Disabled, ParKind::Static(1), ParKind::Static(2), ParKind::Static(7), ParKind::Static(32), ParKind::Default] {
         for cache in [CacheKind::None, CacheKind::Default, CacheKind::ShortLife(2), CacheKind::Tiny(300)] {
             for (restarts, read_only) in [(0u32, false), (0x5555_5555, false), (u32::MAX, true), (0, true)] {
-                v.push(RunCfg { par, cache, restarts, read_only, pauses: if matches!(cache, CacheKind::ShortLife(_)) { 0x0101_0101 } else { 0 }, spawned: restarts == 0x5555_5555 });
+                v.push(RunCfg { par, cache, restarts, read_only, pauses: if matches!(cache, CacheKind::ShortLife(_)) { 0x0101_0101 } else { 0 }, spawned: restarts == 0x5555_5555, yields: (restarts == 0) as u8 });
             }
         }
     }
